@@ -129,6 +129,26 @@ Proof.
   destruct G as (H1 & H2 & _). auto.
 Qed.
 
+(* the same with C03's TreeInv and the node invariant in the conclusion (what AutosarModel::duplicate needs: Tree/IndexProofsDup.v) *)
+Theorem C04_C05_history_all_K l w' :
+  clean45a l empty_world = true -> run_ops l empty_world = Val w' ->
+  TreeInv w' /\ Inv04 w' /\ Inv05 T w' /\ RX w'.
+Proof.
+  intros Hc H.
+  assert (HT : TreeInv w').
+  { eapply TreeInv_histories; [apply empty_treeinv| |exact H].
+    clear H. revert Hc. generalize empty_world. induction l as [|o l IH]; intros w Hc; cbn in *; [reflexivity|].
+    repeat (apply andb_true_iff in Hc as (Hc & ?)). apply andb_true_iff. split; [assumption|].
+    unfold Inv.run. destruct (run o w) as [[r w1]| |]; auto. }
+  split; [exact HT|].
+  apply (C45_history_all l empty_world w').
+  - apply Inv04_empty.
+  - apply Inv05_empty.
+  - apply empty_RX.
+  - apply clean45a_steps; [apply empty_treeinv|exact Hc].
+  - rewrite run_hist_run_ops. exact H.
+Qed.
+
 End All.
 
 (* [F] the generated tables: the root type (AUTOSAR) is neither named nor a reference type *)
